@@ -211,6 +211,14 @@ def parse_mir(text, prefix=''):
     fns = {}
     lines = text.split('\n')
     i, n = 0, len(lines)
+    # one macro-generated impl per primitive type (bare_language_child!) shares a single MIR name: such functions are told apart by their
+    # signature; every one of them gets the suffix '§<signature types>' (the resolver strips it and takes the self type from the signature)
+    seen_names = {}
+    for L in lines:
+        if L.startswith('fn '):
+            m_ = _FN_RE.match(L) or _FN0_RE.match(L)
+            if m_: seen_names[m_.group(1)] = seen_names.get(m_.group(1), 0) + 1
+    dup = {k for k, v in seen_names.items() if v > 1 and '<impl at ' in k and '{closure' not in k and 'promoted[' not in k}
     while i < n:
         L = lines[i]
         ms = _SIMPLECONST_RE.match(L)
@@ -227,6 +235,8 @@ def parse_mir(text, prefix=''):
             f = Fn(name, nargs); f.sig = L
             f.argtys = [a.split(': ', 1)[1] if ': ' in a else '' for a in split_top(m.group(2))]
             f.ret = m.group(3) if m.lastindex and m.lastindex >= 3 else '()'
+            if m.group(1) in dup:
+                name = name + '§' + re.sub(r'[^\w<>&,]', '', ','.join(f.argtys) + '>' + f.ret); f.name = name
             i += 1
             cur = None
             while i < n and lines[i] != '}':
